@@ -1,7 +1,7 @@
 (* C02 — One well-formed line per problem; file content cannot forge or corrupt output.
    U = str.isprintable of the running interpreter, as range tables regenerated on every run. *)
 From Coq Require Import NArith List Bool.
-From I18n Require Import Model.Tags Proofs.Tags
+From I18n Require Import Model.Tags Proofs.Tags Model.Terminal Proofs.Terminal
   Generated.UcdPrintable Generated.CallSites Generated.TagsData Generated.ToolMessages.
 Import ListNotations.
 Local Open Scope N_scope.
@@ -88,6 +88,46 @@ Theorem C02_colour_strip : forall prio target name on off extra,
     format_line U prio target name on off extra = pre ++ on ++ name ++ off ++ suf.
 Proof. exact (colour_structure U). Qed.
 Print Assumptions C02_colour_strip.
+
+(* the two SGR strings come from the terminal description: lib/terminal.py removes terminfo(5) padding
+   ("$<" number [*][/] ">") from the sgr0 / setaf capabilities.  For a capability written as plain text (without "$")
+   interleaved with padding specifications, what reaches the output is exactly the plain text: no "$<..>" survives. *)
+Theorem C02_padding_removed : forall gs, Forall seg_wf gs -> strip_delay (render gs) = plains gs.
+Proof. exact strip_delay_render. Qed.
+Print Assumptions C02_padding_removed.
+
+Theorem C02_attr_reset_no_padding : forall gs, Forall seg_wf gs -> attr_reset (Some (render gs)) = plains gs.
+Proof. exact attr_reset_render. Qed.
+Print Assumptions C02_attr_reset_no_padding.
+
+Theorem C02_attr_fg_no_padding : forall gs tparm, Forall seg_wf gs ->
+  attr_fg (Some (render gs)) tparm = match plains gs with [] => [] | s => tparm s end.
+Proof. exact attr_fg_render. Qed.
+Print Assumptions C02_attr_fg_no_padding.
+
+(* nothing but whole spans is ever removed: the result is a subsequence of the capability; text without "$" is untouched *)
+Theorem C02_strip_delay_subsequence : forall s, subseq (strip_delay s) s.
+Proof. exact strip_delay_subseq. Qed.
+Print Assumptions C02_strip_delay_subsequence.
+
+Theorem C02_strip_delay_plain : forall p, ~ In c_dollar p -> strip_delay p = p.
+Proof. exact strip_delay_plain_id. Qed.
+Print Assumptions C02_strip_delay_plain.
+
+(* sgr0 = \E[0m$<20>  and  setaf = \E[3%p1%dm$<10*/>  (multi-digit delays, both suffixes) *)
+Example C02_ex_padding :
+  strip_delay [27;91;48;109;36;60;50;48;62] = [27;91;48;109] /\
+  strip_delay [27;91;51;37;112;49;37;100;109;36;60;49;48;42;47;62] = [27;91;51;37;112;49;37;100;109] /\
+  strip_delay [36;60;46;53;62;120;36;60;49;50;46;51;47;62] = [120] /\
+  strip_delay [36;60;62;36;60;120;62;36;60;53;47;42;62] = [36;60;62;36;60;120;62;36;60;53;47;42;62].
+Proof. vm_compute. repeat split; reflexivity. Qed.
+Example C02_ex_padding_wf :
+  Forall seg_wf [Plain [27;91;48;109]; Pad [50;48] None []; Pad [] (Some [53]) [c_star; c_slash]] /\
+  render [Plain [27;91;48;109]; Pad [50;48] None []] = [27;91;48;109;36;60;50;48;62].
+Proof.
+  split; [|reflexivity]. repeat constructor; cbn; try (intros [H|H]; [discriminate H|]; revert H);
+    try (unfold suffix_spec; auto); try discriminate; intuition discriminate.
+Qed.
 
 (* non-vacuity *)
 Example C02_ex_hostile :   (* AStr "a\n\x1b[31mE: x" is escaped to 'a\n\x1b[31mE: x' *)
